@@ -242,8 +242,11 @@ impl<R: Read> Iterator for StreamingTTReader<R> {
             return Some(Err(FormatError::Io(e)));
         }
 
-        match bitcode::deserialize(&entry_bytes) {
+        match bitcode::deserialize::<TTVector>(&entry_bytes) {
             Ok(tt) => {
+                if let Err(e) = tt.validate() {
+                    return Some(Err(FormatError::from(e)));
+                }
                 self.vectors_read += 1;
                 Some(Ok(tt))
             },
